@@ -2,6 +2,7 @@ package main
 
 import (
 	"fmt"
+	"os"
 	"strings"
 )
 
@@ -125,12 +126,27 @@ func NewGen(r *Rng, budget int) *Gen {
 		}
 	}
 	if r.Chance(0.35) {
-		all := append(append(append([]filt{}, strFilters...), numFilters...), arrFilters...)
-		for i, n := 0, r.Range(1, 3); i < n; i++ {
-			g.focus = append(g.focus, pick(r, all))
-		}
+		g.focus = pickFocus(r)
 	}
 	return g
+}
+
+// pickFocus draws 1..3 filters to be used much more often than the rest
+// (swarm testing: state keyed by filter arguments needs many uses of ONE filter).
+func pickFocus(r *Rng) []filt {
+	all := append(append(append([]filt{}, strFilters...), numFilters...), arrFilters...)
+	var f []filt
+	if want := os.Getenv("VERIF_FOCUS"); want != "" { // debugging aid: force one focus filter
+		for _, x := range all {
+			if x.name == want {
+				return []filt{x}
+			}
+		}
+	}
+	for i, n := 0, r.Range(1, 3); i < n; i++ {
+		f = append(f, pick(r, all))
+	}
+	return f
 }
 
 func scopeOf(e *Env) scope {
